@@ -25,11 +25,11 @@ def formulations(tier, refs_quick=("straight", "helix"), harsch=True):
         refs = tuple(refs_quick)
     else:
         nels = (1, 2, 3)
-        refs = ("straight", "straight_pose", "arc", "helix", "helix_nonunit")
+        refs = ("straight", "straight_pose", "arc", "helix", "helix_nonunit", "sheared")
     out = []
     for nel in nels:
         for ref in refs:
-            if nel == 3 and ref not in ("straight_pose", "helix"):
+            if nel == 3 and ref not in ("straight_pose", "helix", "sheared"):
                 continue  # budget: three elements only on one straight and one curved reference
             # interpolation varies fastest so that a short prefix of the list already contains every
             # interpolation and both formulations (cheap --limit runs for mutant demonstrations)
@@ -45,6 +45,14 @@ def formulations(tier, refs_quick=("straight", "helix"), harsch=True):
                         for interp, p in INTERPS:
                             out.append({"interp": interp, "p": p, "mixed": mixed, "cons": cons, "nel": nel, "ref": ref,
                                         "mat": "Simo1986", "full_int": False})
+    if tier == "quick" and harsch:
+        # second material on a curved and on a sheared reference (reference shear strains != 0; seeded C10-i)
+        for interp, p in INTERPS:
+            for ref in ("helix", "sheared"):
+                out.append({"interp": interp, "p": p, "mixed": False, "cons": None, "nel": 2, "ref": ref, "mat": "Harsch2021", "full_int": False})
+        for interp, p in INTERPS[:1] + INTERPS[3:5]:
+            for mixed in (False, True):
+                out.append({"interp": interp, "p": p, "mixed": mixed, "cons": None, "nel": 2, "ref": "sheared", "mat": "Simo1986", "full_int": False})
     if tier != "quick":
         # extra letters of the thorough tier: full integration; second material (displacement-based only)
         for interp, p in INTERPS:
@@ -56,8 +64,9 @@ def formulations(tier, refs_quick=("straight", "helix"), harsch=True):
             for interp, p in INTERPS:
                 for cons in (None, [1, 2], [0, 1, 2]):
                     for nel in (1, 2):
-                        out.append({"interp": interp, "p": p, "mixed": False, "cons": cons, "nel": nel, "ref": "helix",
-                                    "mat": "Harsch2021", "full_int": False})
+                        for ref in ("helix", "sheared"):
+                            out.append({"interp": interp, "p": p, "mixed": False, "cons": cons, "nel": nel, "ref": ref,
+                                        "mat": "Harsch2021", "full_int": False})
     return out
 
 
@@ -91,6 +100,11 @@ def reference(Rod, nel, ref, seed=0):
         r = lambda xi: np.array([R * math.sin(a * xi), R * (1 - math.cos(a * xi)), 0.0])
         A = lambda xi: _rotz(a * xi)
         return Rod.pose_configuration(nel, r, A)
+    if ref == "sheared":
+        # straight centreline, cross-sections tilted against it (reference shear strains != 0) and twisting along the rod
+        r = lambda xi: np.array([L * xi, 0.0, 0.0])
+        A = lambda xi: _rotz(0.3) @ np.array([[1.0, 0.0, 0.0], [0.0, math.cos(0.8 * xi), -math.sin(0.8 * xi)], [0.0, math.sin(0.8 * xi), math.cos(0.8 * xi)]])
+        return Rod.pose_configuration(nel, r, A, r_OP0=np.array([0.2, 0.1, -0.3]), A_IB0=ab.quat_to_A(np.array([1.0, 0.5, -0.2, 0.3])))
     if ref in ("helix", "helix_nonunit"):
         a = 1.7  # total turn angle (per-element relative rotation stays well below pi for nel=1)
         R = 0.8
